@@ -370,6 +370,41 @@ Proof.
            end).
 Qed.
 
+(* A configuration value is immutable data: clone / derive shares no state.  A process is any list
+   of steps on named values ([VNew] = ::new(), [VSet] = src[.clone()].setter(..), [VUse] =
+   tls_config(src[.clone()]), [VNop] = anything else: servers serving, handshakes, calls).  For
+   ALL such histories - values derived from values that were already used, the same value used
+   for several servers, any order of building and using -: every value handed to tls_config is
+   the evaluation of the chain of setter calls that made it ([vuses] over the symbolic values
+   XNew / XSet) and of nothing else *)
+Theorem c15_config_values_are_data :
+  forall (V S : Type) (vnew : V) (vapp : V -> S -> V) (h : list vstep),
+  vuses vnew vapp h = map (option_map (veval vnew vapp)) (vuses XNew (@XSet S) h).
+Proof. exact @vuses_are_their_chains. Qed.
+
+(* ... and what else happens in the process between the steps is irrelevant to the values *)
+Theorem c15_other_activity_is_irrelevant_to_values :
+  forall (V S : Type) (vnew : V) (vapp : V -> S -> V) (h : list vstep) (st : vstore),
+  vrun vnew vapp st (filter (fun x => negb (is_nop x)) h) = vrun vnew vapp st h.
+Proof. exact @vrun_nops_irrelevant. Qed.
+
+(* for tonic's two configuration types, with calls to the servers built so far / through the
+   endpoints built so far in between: the k-th server (endpoint) of the process is configured by
+   the value its own setter chain evaluates to ([srv_history_run] / [cli_history_run] are what
+   the correspondence run evaluates for the kinds sequence.derived_config) - hence the behaviour
+   of a built server is a function of its own final configuration only *)
+Theorem c15_built_servers_follow_their_own_chain :
+  forall (native : list caid) (h : list sh_step),
+  fst (srv_history_run native [] [] h) =
+  map (option_map (veval server_tls_config_new apply_srv_setter)) (vuses XNew (@XSet _) (sh_vals h)).
+Proof. exact srv_history_servers_are_their_chains. Qed.
+
+Theorem c15_endpoints_follow_their_own_chain :
+  forall (native : list caid) (s : scheme) (hh : option dn) (h : list ch_step),
+  fst (cli_history_run native s hh [] [] h) =
+  map (option_map (veval client_tls_config_new apply_cli_setter)) (vuses XNew (@XSet _) (ch_vals h)).
+Proof. exact cli_history_endpoints_are_their_chains. Qed.
+
 (* Session resumption cannot carry a client past another server's client authentication.
    Every tls_acceptor call builds a ServerConfig with a session store of its own
    ([spawn_servers]); rustls resumes a session only out of the store that holds it
@@ -717,6 +752,25 @@ Example c15_listener_schedule :
   = [OutIo 2 22; OutIo 3 33]%nat.
 Proof. reflexivity. Qed.
 
+(* base = new().identity(id); server A = tls_config(base.clone()) serves an anonymous client; THEN
+   server B = tls_config(base.client_ca_root(CA2)): B refuses the anonymous client and the
+   client of the other CA, serves and exposes the CA2 client; A still serves anonymously *)
+Example c15_derived_config_after_use :
+  let anon := Some (ca_certificate cfg0 (pem1 CA1)) in
+  let with_id := fun c => Some (identity (ca_certificate cfg0 (pem1 CA1)) (good_id c)) in
+  obs_srv_history []
+    [ ShVal (VNew 0); ShVal (VSet 0 0 (SetIdentity (good_id SrvExample)) false);
+      ShVal (VUse 0 true); ShCall 0 Https (Some DExample) anon;
+      ShVal (VSet 1 0 (SetClientCa (pem1 CA2)) false); ShVal (VUse 1 false);
+      ShCall 1 Https (Some DExample) anon; ShCall 1 Https (Some DExample) (with_id CliCA1);
+      ShCall 1 Https (Some DExample) (with_id CliCA2); ShCall 0 Https (Some DExample) anon ]%nat
+  = Nd [ Nd [Nn 0; Nn 1; Nd []; Nd []; Nn 1; Nn 1];
+         Nd [Nn 6; Nn 0; Nd []; Nd []; Nn 0; Nn 1];
+         Nd [Nn 6; Nn 0; Nd []; Nd []; Nn 0; Nn 1];
+         Nd [Nn 0; Nn 1; Nd [Nn 1]; Nd [Nn 1]; Nn 1; Nn 1];
+         Nd [Nn 0; Nn 1; Nd []; Nd []; Nn 1; Nn 1] ].
+Proof. reflexivity. Qed.
+
 Print Assumptions c15_call_sent_implies_authenticated.
 Print Assumptions c15_https_without_tls_fails.
 Print Assumptions c15_client_auth_enforced.
@@ -737,6 +791,9 @@ Print Assumptions c15_request_peer_certs.
 Print Assumptions c15_acceptor_wiring.
 Print Assumptions c15_served_over_https_implies_all_gen.
 Print Assumptions c15_reference_served_iff.
+Print Assumptions c15_config_values_are_data.
+Print Assumptions c15_built_servers_follow_their_own_chain.
+Print Assumptions c15_endpoints_follow_their_own_chain.
 Print Assumptions c15_listener_yield_sound.
 Print Assumptions c15_listener_yield_once.
 Print Assumptions c15_listener_yield_complete.
